@@ -589,6 +589,9 @@ def s_vec_extend(ip, st, fr, name, args, c, site):
 @S('std::slice::<impl [T]>::to_vec')
 def s_to_vec(ip, st, fr, name, args, c, site):
     src = deref_all(ip, st, args[0])
+    if isinstance(src, X.Sym) and not src.wr and isinstance(src.term, tuple) and src.term[0] in ('var', 'fld', 'call', 'elem', 'vfld') and ip.elem_ty(src.ty):
+        # a copy of a symbolic sequence nobody wrote into: the same contents under a vector type (elements keep their type)
+        return one(X.Sym(src.term, 'std::vec::Vec<%s>' % ip.elem_ty(src.ty)))
     return one(X.ListV(listv_of(ip, st, src)))
 
 
